@@ -41,7 +41,8 @@ def untok(t):
 
 
 def build_harness(ctx):
-    lib = ctx.build_lib("san", exclude=EXCLUDE)
+    lib = ctx.build_lib("san")      # full library; read_header.o / write_header.o are never pulled from the archive
+                                    # because the harness (linked first) defines their only symbols itself
     return ctx.cc("h_c04", ["h_c04.c", str(lib)], libs=vlib.CODEC_LIBS)
 
 
@@ -959,6 +960,185 @@ def unit_reader(ctx, harness, stats):
     stats["iter_sparse_files_checked_against_spec"] = nsparse
 
 
+# ------------------------------------------------------------------ conversion model (process_tarball + fstree_add_generic) vs the real tar2sqfs
+KEY_D25 = "D25:retarget-clobbers-unprefixed-symlink"
+LINK_POOL = [b"/usr/bin/x", b"r/x", b"r//x/", b"./r/y", b"../up", b"./x/../y", b"a//b", b"dir/", b"r", b"rx/y", b"/r/z", b"a/b/c", b"a/b//c/.", b"x",
+             b"r/../q", b"./", b"/", b"a/b", b"../r/x", b"r/./x", b"//r//x"]
+
+
+def unit_canon_inplace(ctx, harness, stats):
+    rng = ctx.rng
+    ins = list(LINK_POOL)
+    for _ in range(1500 if ctx.quick() else 30000):
+        k = rng.randint(1, 8)
+        ins.append(b"".join(rng.choice([b"/", b"//", b".", b"..", b"./", b"../", b"a", b"bc", b"r", b"/.", b"/..", b"...", b" "]) for _ in range(k)))
+    lines = ["canonip " + tok(x) for x in ins if x]
+    impl, crash = run_impl(ctx, harness, lines)
+    if crash:
+        ctx.violation("crash:canonip", "canonicalize_name aborted: %s" % crash[2][-300:], {"unit": [lines[min(crash[0], len(lines) - 1)]]})
+        return
+    model = run_model(ctx, lines)
+    for l, a, b in zip(lines, impl, model):
+        stats["nontrivial"].add(("canonip", l))
+        if a != b:
+            stats["disagreements_checked"] += 1
+            report(ctx, "canonip", "canonip:" + l[8:], "canonicalize_name as a buffer transformer: code %s model %s on %s" % (a, b, l), {"unit": [l]}, found_input=False)
+    stats["evaluations"] += 2 * len(lines)
+    stats["canon_inplace_inputs"] = len(lines)
+
+
+def gen_conv_archive(rng, rb=b""):
+    """small archive with colliding names (mostly below `rb` when --root-becomes is used)"""
+    comps = [b"a", b"b", b"c", b"r", b"d1", b"x", b"y", b"rx", b"q"]
+    n = rng.randint(1, 9)
+    out = b""
+    for _ in range(n):
+        depth = rng.choice([0, 1, 1, 2, 2, 3])
+        path = b"/".join(rng.choice(comps) for _ in range(depth)) if depth else rng.choice([b"./", b"/", b".", b"r", b"r/", b"a/b/", b"./r"])
+        if depth and rb and rng.random() < 0.7:
+            path = rb + b"/" + path
+        elif depth and rng.random() < 0.3:
+            path = rng.choice([b"./", b"/", b"r/", b"a/b/", b".//"]) + path
+        kind = rng.choice(["dir", "dir", "file", "file", "slink", "slink", "fifo", "chr", "blk"])
+        uid, gid = rng.choice([0, 1, 1000, 65534, (1 << 32) - 1]), rng.choice([0, 5, 1000])
+        mtime = rng.choice([0, 1, 1542905892, (1 << 31), (1 << 32) - 1, 1 << 32, (1 << 33) + 7, -1, -(1 << 31)])
+        style = "b256" if mtime < 0 or mtime >= 1 << 33 else rng.choice(["term", "nul", "b256"])
+        mode = rng.choice([0o644, 0o755, 0o700, 0o7777, 0])
+        if kind == "dir":
+            if rng.random() < 0.7 and not path.endswith(b"/"):
+                path += b"/"
+            out += mk_header(name=path, mode=mode, uid=uid, gid=gid, mtime=mtime, typeflag=b"5", dialect=rng.choice(["ustar", "gnu", "v7"]), style=style)
+        elif kind == "file":
+            data = bytes(rng.randrange(256) for _ in range(rng.choice([0, 1, 5, 512, 700])))
+            out += mk_header(name=path, mode=mode, uid=uid, gid=gid, mtime=mtime, size=len(data), typeflag=b"0", dialect="ustar", style=style) + pad512(data)
+        elif kind == "slink":
+            out += mk_header(name=path, mode=0o777, uid=uid, gid=gid, mtime=mtime, typeflag=b"2", linkname=rng.choice(LINK_POOL), dialect="gnu", style=style)
+        elif kind == "fifo":
+            out += mk_header(name=path, mode=mode, uid=uid, gid=gid, mtime=mtime, typeflag=b"6", dialect="ustar", style=style)
+        else:
+            out += mk_header(name=path, mode=mode, uid=uid, gid=gid, mtime=mtime, typeflag=b"3" if kind == "chr" else b"4", dialect="ustar", style=style,
+                             maj=rng.choice([0, 1, 8, 255, 4095]), minr=rng.choice([0, 1, 255, 256, (1 << 20) - 1]))
+    return out + b"\0" * 1024
+
+
+def observe_image(ctx, tools, img):
+    """tree of an image as sorted describe-like lines with mtimes; None on failure"""
+    import io, tarfile
+    env = ctx.san_env({"TZ": "UTC", "LC_ALL": "C"})
+    r = vlib.sh([str(tools["rdsquashfs"]), "-d", str(img)], env=env, timeout=600)
+    if r.returncode != 0:
+        return None, "rdsquashfs -d failed: " + r.stderr[-300:]
+    r2 = vlib.sh([str(tools["sqfs2tar"]), "--no-hard-links", str(img)], env=env, timeout=600, text=False)
+    if r2.returncode != 0:
+        return None, "sqfs2tar failed: " + r2.stderr.decode("latin1")[-300:]
+    mt = {}
+    with tarfile.open(fileobj=io.BytesIO(r2.stdout), mode="r:") as tf:
+        for m in tf:
+            mt[m.name.rstrip("/")] = int(m.mtime)
+    lines = []
+    for l in r.stdout.splitlines():
+        f = l.split(" ")
+        kind, path = f[0], f[1]
+        rest = f[5:]
+        x = "%s %s %s %s %s mtime=%s" % (kind, tok(path.encode()), f[2], f[3], f[4], mt.get(path, "?"))
+        if kind == "slink":
+            x += " " + tok(" ".join(rest).encode())
+        elif kind == "nod":
+            x += " " + " ".join(rest)
+        lines.append(x)
+    return sorted(lines), None
+
+
+def tool_conv(ctx, harness, stats):
+    """process_tarball + fstree_add_generic model vs the real tar2sqfs (built from the working tree) on small colliding archives"""
+    rng = ctx.rng
+    tools = {t: ctx.build_tool(t) for t in ("tar2sqfs", "rdsquashfs", "sqfs2tar")}
+    d = ctx.scratch / "conv"
+    d.mkdir(exist_ok=True)
+    n = 120 if ctx.quick() else 2500
+    cases = []
+    for i in range(n):
+        rb = rng.choice([b"", b"", b"r", b"r", b"a/b", b"x"])
+        arc = gen_conv_archive(rng, rb)
+        sflag = rng.random() < 0.3
+        kflag = rng.random() < 0.25
+        dm, du, dg, dmode = rng.choice([0, 0, 77, 1542905892]), rng.choice([0, 1000]), rng.choice([0, 7]), rng.choice([0o755, 0o700])
+        cases.append((arc, rb, sflag, kflag, dm, du, dg, dmode))
+    lines = ["t2s %s %d %d %d %d %d %o %s" % (tok(rb), sflag, kflag, dm, du, dg, dmode, tok(arc)) for arc, rb, sflag, kflag, dm, du, dg, dmode in cases]
+    model = run_model(ctx, lines)
+    cur = run_model(ctx, ["t2scur" + l[3:] for l in lines])
+    env = ctx.san_env()
+    hist = {"model_ok": 0, "model_fail": 0, "root_becomes": 0, "no_keep_time": 0, "d25_seen": 0}
+
+    def one(i):
+        arc, rb, sflag, kflag, dm, du, dg, dmode = cases[i]
+        img = d / ("c%d.sqfs" % i)
+        cmd = [str(tools["tar2sqfs"]), "-q", "-f", "-j", "1", "--defaults", "mtime=%d,uid=%d,gid=%d,mode=0%o" % (dm, du, dg, dmode)]
+        if rb:
+            cmd += ["--root-becomes", rb.decode()]
+        if sflag:
+            cmd.append("-S")
+        if kflag:
+            cmd.append("-k")
+        try:
+            r = vlib.sh(cmd + [str(img)], input=arc, env=env, timeout=1200, text=False)
+        except Exception as e:
+            return ("timeout", str(e))
+        if r.returncode >= 90 or r.returncode < 0:
+            return ("crash", "exit %d: %s" % (r.returncode, r.stderr.decode("latin1")[-600:]))
+        if r.returncode != 0:
+            return ("fail", r.stderr.decode("latin1")[-200:])
+        obs, err = observe_image(ctx, tools, img)
+        try:
+            img.unlink()
+        except OSError:
+            pass
+        if obs is None:
+            return ("observe-error", err)
+        return ("ok", obs)
+
+    from concurrent.futures import ThreadPoolExecutor
+    with ThreadPoolExecutor(max_workers=3) as ex:
+        results = list(ex.map(one, range(len(cases))))
+
+    def norm_model(line):
+        if not line.startswith("ok"):
+            return "fail"
+        body = line[3:].strip()
+        return sorted(x for x in body.split(";") if x) if body else []
+
+    for i, (st, obs) in enumerate(results):
+        arc, rb, sflag, kflag = cases[i][:4]
+        replay = {"unit": [lines[i]], "tar2sqfs": {"archive_hex": tok(arc), "root_becomes": rb.decode(), "S": sflag, "k": kflag, "defaults": list(cases[i][4:])}}
+        stats["nontrivial"].add(("t2s", vlib.sha(lines[i])[:16]))
+        hist["root_becomes"] += bool(rb); hist["no_keep_time"] += bool(kflag)
+        want = norm_model(model[i])
+        hist["model_ok" if want != "fail" else "model_fail"] += 1
+        if st in ("crash", "timeout"):
+            ctx.violation("crash:tar2sqfs:" + vlib.sha(lines[i])[:10], "tar2sqfs %s: %s" % (st, obs), replay)
+            continue
+        got = "fail" if st == "fail" else obs
+        if st == "observe-error":
+            stats["disagreements_checked"] += 1
+            report(ctx, "conv-observe", "conv-observe:" + vlib.sha(lines[i])[:10], "image produced by tar2sqfs cannot be read back: %s" % obs, replay)
+            continue
+        if got == want:
+            continue
+        stats["disagreements_checked"] += 1
+        if got == norm_model(cur[i]):
+            hist["d25_seen"] += 1
+            ctx.violation(KEY_D25, "tar2sqfs --root-becomes rewrites a symlink target that is not below the new root: got %s, expected %s" % (
+                [x for x in got if x not in want][:3], [x for x in want if x not in got][:3]), replay)
+        else:
+            gd = [x for x in got if x not in want][:4] if got != "fail" and want != "fail" else got if got == "fail" else "ok"
+            wd = [x for x in want if x not in got][:4] if got != "fail" and want != "fail" else want if want == "fail" else "ok"
+            report(ctx, "conv", "conv:" + vlib.sha(lines[i])[:10], "tar2sqfs and the conversion model disagree (opts rb=%r S=%s k=%s): tool %s / model %s" % (
+                rb, sflag, kflag, gd, wd), replay)
+    stats["evaluations"] += 2 * len(lines) + len(cases)
+    stats["conv_cases"] = len(cases)
+    stats["conv_hist"] = hist
+
+
 # ------------------------------------------------------------------ entry points
 def run(ctx):
     ok, problems = vlib.proof_gate(ctx, MODULE, REQUIRED)
@@ -968,7 +1148,7 @@ def run(ctx):
     stats = {"evaluations": 0, "disagreements_checked": 0, "nontrivial": set(), "samples": []}
     t0 = time.time()
     harness = build_harness(ctx)
-    for fn in (unit_numbers, unit_checksum, unit_headers, unit_reader):
+    for fn in (unit_numbers, unit_checksum, unit_headers, unit_reader, unit_canon_inplace, tool_conv):
         t1 = time.time()
         fn(ctx, harness, stats)
         ctx.log("%s: %.1fs" % (fn.__name__, time.time() - t1))
